@@ -1,6 +1,6 @@
 \* exhaustive, thorough: all documents within ThoroughDepth(family) edits of the base documents
 CONSTANT MaxLevel <- ThoroughDepth
-CONSTANT Families = {"links", "comp", "stack", "pins", "core", "duct"}
+CONSTANT Families = {"links", "comp", "stack", "pins", "core", "duct", "group"}
 INIT Init
 NEXT Next
 CONSTRAINT Bound
